@@ -3,6 +3,7 @@ package fscache
 import (
 	"os"
 	"path"
+	"sort"
 	"strings"
 	"sync"
 
@@ -68,20 +69,22 @@ func (c *Cache) Commit() (err error) {
 		src      string
 		filemode os.FileMode
 	)
-	c.changes.removeMU.RLock()
-	defer c.changes.removeMU.RUnlock()
-	for src = range c.changes.remove {
-		if c.remoteFS.IsExist(src) {
-			if err = c.remoteFS.Remove(src); err != nil {
-				return err
-			}
-		}
-	}
+	// recursive removes first, then plain removes with children before their directory: a
+	// directory emptied by other pending removes can then be removed too
 	c.changes.removeAllMU.RLock()
 	defer c.changes.removeAllMU.RUnlock()
 	for src = range c.changes.removeAll {
 		if c.remoteFS.IsExist(src) {
 			if err = c.remoteFS.RemoveAll(src); err != nil {
+				return err
+			}
+		}
+	}
+	c.changes.removeMU.RLock()
+	defer c.changes.removeMU.RUnlock()
+	for _, src = range c.removesDeepestFirst() {
+		if c.remoteFS.IsExist(src) {
+			if err = c.remoteFS.Remove(src); err != nil {
 				return err
 			}
 		}
@@ -118,6 +121,17 @@ func (c *Cache) Commit() (err error) {
 		}
 	}
 	return nil
+}
+
+// removesDeepestFirst return the paths of the remove journal, longer paths first (a node is
+// longer than the directory that contains it); the caller holds the journal's lock
+func (c *Cache) removesDeepestFirst() []string {
+	removes := make([]string, 0, len(c.changes.remove))
+	for src := range c.changes.remove {
+		removes = append(removes, src)
+	}
+	sort.Slice(removes, func(i, j int) bool { return len(removes[i]) > len(removes[j]) })
+	return removes
 }
 
 // isRemoved return true if the path, or a directory above it, has a pending remove
